@@ -25,13 +25,31 @@ def caps_for(prog, fname, extra=None):
     return caps
 
 
-def check_function(ck, prog, rule, fname, extra_caps=None, assume=None, min_sites=1, only=None, _depth=0):
+def check_function(ck, prog, rule, fname, extra_caps=None, assume=None, min_sites=1, only=None, _depth=0, returns_length_of=None):
     f = prog.fn(fname)
     if f is None:
         ck.anchor_lost(rule, "function %s not found" % fname)
         return None
     ck.analysed(f)
     an = B.Analysis(prog, f, caps_for(prog, fname, extra_caps), spec()["contracts"], assume=assume)
+    if returns_length_of:
+        # the value returned is the length of the string left in that buffer, whenever the engine knows that length exactly
+        from sa.linear import le as _le
+        orig = an.do_elem
+
+        def hook(st, n, orig=orig, an=an, key=returns_length_of):
+            if n.k == "ReturnStmt" and n.ch:
+                v = an.value(st, n.child(0))
+                cur = st.slen.get(key)
+                if v is not None and cur is not None and cur[0] == "eq":
+                    what = "the length returned equals the length of the string written"
+                    an.oblige_fact(st, n, "return", _le(v, cur[1]), what, key=("retlen", n.id))
+                    an.oblige_fact(st, n, "return", _le(cur[1], v), what, key=("retlen", n.id))
+                elif v is not None and cur is not None and cur[0] == "le":
+                    what = "the length returned does not exceed the length the string can have"
+                    an.oblige_fact(st, n, "return", _le(v, cur[1]), what, key=("retlen", n.id))
+            return orig(st, n)
+        an.do_elem = hook
     try:
         sites = an.run()
     except RecursionError:
@@ -51,6 +69,9 @@ def check_function(ck, prog, rule, fname, extra_caps=None, assume=None, min_site
         n += 1
         if v == "HOLDS":
             ck.holds(rule, st, K.loc(f, s.node), "`%s` stays inside its buffer on all %d paths reaching it" % (s.what[:70], len(s.results)))
+        elif v == "VIOLATED" and s.kind in ("return", "arith", "contract", "exit"):
+            ck.violated(rule, st, K.loc(f, s.node), "not guaranteed: %s; witness %s" % (r[3], r[5]),
+                        {"obligation": r[3], "facts": r[4], "witness": r[5]})
         elif v == "VIOLATED":
             ck.violated(rule, st, K.loc(f, s.node),
                         "`%s` can %s outside its buffer: %s; witness %s" % (s.what[:80], "read" if s.kind in ("load", "read") else "write", r[3], r[5]),
